@@ -124,6 +124,14 @@ class FGen:
                 other = self.num_expr(sc, d - 1)
                 cond = ["cmp", rng.choice(["<", ">"]), self.num_leaf(sc), self.num_leaf(sc)]
                 return ["if", cond, other, c] if rng.random() < 0.6 else ["if", cond, c, other]
+            if rng.random() < 0.3:
+                # an elif ladder: the else branch is itself a conditional expression (two or three rungs)
+                def cmp_():
+                    return ["cmp", rng.choice(["<", ">", "<=", ">="]), self.num_leaf(sc), self.num_leaf(sc)]
+                e = ["if", cmp_(), self.num_expr(sc, max(0, d - 2)), self.num_expr(sc, max(0, d - 2))]
+                for _ in range(rng.choice([1, 1, 2])):
+                    e = ["if", cmp_(), self.num_expr(sc, max(0, d - 2)), e]
+                return e
             return ["if", self.bool_expr(sc, d - 1), self.num_expr(sc, d - 1), self.num_expr(sc, d - 1)]
         if r < 0.9 and sc["arrs"]:
             a = rng.choice(sorted(sc["arrs"]))
